@@ -97,8 +97,9 @@ def multSingle (k : KV) (node : Rat) : Nat :=
 def mult (k : KV) (node : Rat) : Except Err Nat :=
   if !k.validNode node then .error .value else .ok (k.multSingle node)
 
-/-- `__add__`: sorted concatenation, revalidated -/
-def insert (k : KV) (nodes : List Rat) : Except Err KV := KV.mk? (isort (k.v ++ nodes))
+/-- `__add__`: nodes must lie in the interval; sorted concatenation, revalidated -/
+def insert (k : KV) (nodes : List Rat) : Except Err KV :=
+  if !k.validNodes nodes then .error .value else KV.mk? (isort (k.v ++ nodes))
 
 /-- `__sub__`: remove each node once (ValueError if absent), revalidated -/
 def remove (k : KV) (nodes : List Rat) : Except Err KV :=
